@@ -128,3 +128,42 @@ package mqtt
 //@   props C10
 //@   requires c != nil
 //@   assigns nothing
+
+// ---- ServeMux / ServeAsync dispatch (C14, C20) ----
+
+//@ func (*ServeMux).Handle
+//@   mode int
+//@   props C14
+//@   requires m != nil && handler != nil
+//@   assigns m.handlers; m.handlers[*]
+//@   let old ssnap[serveMuxHandler] = sliceSnap(m.handlers)
+//@   ensures[C14] validated: evCount("newTopicFilter") == 1 && evArg[string]("newTopicFilter", 0, 0) == filter && (result == nil) == (evRet[error]("newTopicFilter", 0, 1) == nil)
+//@   ensures[C14] rejected_unchanged: result != nil ==> len(m.handlers) == ssLen(old) && result == evRet[error]("newTopicFilter", 0, 1)
+//@   ensures[C14] registered_last: result == nil ==> len(m.handlers) == ssLen(old)+1 && m.handlers[ssLen(old)].handler == handler &&
+//@        sameSlice([]string(m.handlers[ssLen(old)].filter), []string(evRet[topicFilter]("newTopicFilter", 0, 0)))
+//@   ensures[C14] order_kept: forall(0, ssLen(old), func(i int) bool { return m.handlers[i].handler == ssAt(old, i).handler && sameSlice([]string(m.handlers[i].filter), []string(ssAt(old, i).filter)) })
+
+//@ func (*ServeMux).Serve
+//@   mode int
+//@   props C14 C20
+//@   requires m != nil && message != nil
+//@   note representation invariant of ServeMux (every entry was validated by Handle; its preservation by append is not mechanised: assumed here)
+//@   requires forall(0, len(m.handlers), func(i int) bool { return m.handlers[i].handler != nil })
+//@   requires forall(0, len(m.handlers), func(i int) bool { return len(m.handlers[i].filter) >= 1 })
+//@   requires forallGrid(len(m.handlers), 1<<48, func(i, j int) bool { return j >= len(m.handlers[i].filter) || validLevel(m.handlers[i].filter[j], j == len(m.handlers[i].filter)-1) })
+//@   assigns nothing
+//@   loop 1 invariant true
+//@   loop 1 iter[C14] matched_only: evCount("(topicFilter).Match") == 1 && sameSlice([]string(evArg[topicFilter]("(topicFilter).Match", 0, 0)), []string(m.handlers[rangeindex1+1].filter)) &&
+//@        evArg[string]("(topicFilter).Match", 0, 1) == message.Topic &&
+//@        evCount("Handler.Serve") == ite(evRet[bool]("(topicFilter).Match", 0, 0), 1, 0) &&
+//@        (evCount("Handler.Serve") == 1 ==> evArg[Handler]("Handler.Serve", 0, 0) == m.handlers[rangeindex1+1].handler)
+//@   loop 1 iter[C20] private_copy: evCount("Handler.Serve") == 1 ==> evCount("(*Message).clone") == 1 && evArg[*Message]("(*Message).clone", 0, 0) == message &&
+//@        evArg[*Message]("Handler.Serve", 0, 1) == evRet[*Message]("(*Message).clone", 0, 0) && evArg[*Message]("Handler.Serve", 0, 1) != message
+
+//@ func (*ServeAsync).Serve
+//@   mode int
+//@   props C20
+//@   requires m != nil && message != nil && m.Handler != nil
+//@   assigns nothing
+//@   ensures[C20] private_copy: evCount("(*Message).clone") == 1 && evArg[*Message]("(*Message).clone", 0, 0) == message && evCount("go:Handler.Serve") == 1 &&
+//@        evArg[*Message]("go:Handler.Serve", 0, 1) == evRet[*Message]("(*Message).clone", 0, 0) && evArg[Handler]("go:Handler.Serve", 0, 0) == m.Handler
